@@ -199,6 +199,9 @@ type world struct {
 	hook   func(p int)                     // at the verif yield point (after the running check)
 	cas    func(p int, o *obj, fresh bool) // inside BatchWriteScheduled, after the flag operation
 	erets  atomic.Int64                    // Enqueue calls returned so far
+	wmu    sync.Mutex
+	wfrozen bool
+	wlog   []string // the writer goroutine's events and store calls, in its own order: nb rs.o w.o.v cm d.o cc
 	nBatched, nCommit atomic.Int64         // store calls of the writer goroutine so far (store-fail)
 	slow   atomic.Bool                     // flush-span: the hold took longer than a third of the batch time-out
 	panics atomic.Int64
@@ -232,6 +235,23 @@ func (w *world) recLocked(kind string, args ...int) {
 		}
 		w.plog[args[0]] = append(w.plog[args[0]], strings.ReplaceAll(sb.String(), " ", "."))
 	}
+}
+
+// wrec appends to the writer goroutine's own log (events as in the trace, `nb`: store.Batched(), `cc`: Cancel() of an
+// empty batch).  A writer that spins through empty batches (time-out <= 0) would fill it with `nb cc` pairs: a pair
+// that repeats the previous one is dropped.
+func (w *world) wrec(tok string) {
+	w.wmu.Lock()
+	defer w.wmu.Unlock()
+	if w.wfrozen {
+		return
+	}
+	if n := len(w.wlog); tok == "cc" && n >= 3 && w.wlog[n-1] == "nb" && w.wlog[n-2] == "cc" && w.wlog[n-3] == "nb" {
+		w.wlog = w.wlog[:n-1]
+
+		return
+	}
+	w.wlog = append(w.wlog, tok)
 }
 
 // recPseudoLocked records a marker that is not an event of the trace predicate (`cf`: a store call failed, `slow`,
@@ -369,6 +389,7 @@ func (o *obj) BatchWrite(m kvstore.BatchedMutations) {
 		net = 0
 	}
 	o.w.rec("w", o.id, net)
+	o.w.wrec(fmt.Sprintf("w.%d.%d", o.id, net))
 	if o.gate != nil {
 		<-o.gate
 	}
@@ -396,7 +417,10 @@ func (o *obj) BatchWrite(m kvstore.BatchedMutations) {
 	}
 }
 
-func (o *obj) BatchWriteDone() { o.w.rec("d", o.id) }
+func (o *obj) BatchWriteDone() {
+	o.w.rec("d", o.id)
+	o.w.wrec("d." + strconv.Itoa(o.id))
+}
 
 func (o *obj) BatchWriteScheduled() bool {
 	o.w.mu.Lock()
@@ -422,6 +446,7 @@ func (o *obj) ResetBatchWriteScheduled() {
 	o.flag = false
 	o.w.recLocked("rs", o.id)
 	o.w.mu.Unlock()
+	o.w.wrec("rs." + strconv.Itoa(o.id))
 }
 
 // recStore records successful commits of batched mutations.
@@ -477,6 +502,7 @@ func (s *recStore) Batched() (kvstore.BatchedMutations, error) {
 	if err != nil {
 		return nil, err
 	}
+	s.w.wrec("nb")
 
 	return &recBatch{BatchedMutations: b, w: s.w, touched: map[int]bool{}}, nil
 }
@@ -501,9 +527,15 @@ func (b *recBatch) Commit() error {
 			b.w.recStoreLocked(id)
 		}
 		b.w.mu.Unlock()
+		b.w.wrec("cm")
 	}
 
 	return err
+}
+
+func (b *recBatch) Cancel() {
+	b.w.wrec("cc")
+	b.BatchedMutations.Cancel()
 }
 
 func newWorld(c cfg) *world {
@@ -737,10 +769,15 @@ func run1(c cfg) ([]string, map[int][]string) {
 	ev := runIn(w)
 	w.mu.Lock()
 	defer w.mu.Unlock()
-	plog := make(map[int][]string, len(w.plog))
+	plog := make(map[int][]string, len(w.plog)+1)
 	for p, l := range w.plog {
 		plog[p] = append([]string(nil), l...)
 	}
+	// key -1: the writer goroutine's own log (frozen now: a writer that is still alive records nothing more)
+	w.wmu.Lock()
+	w.wfrozen = true
+	plog[-1] = append([]string(nil), w.wlog...)
+	w.wmu.Unlock()
 
 	return ev, plog
 }
@@ -925,7 +962,8 @@ func runIn(w *world) []string {
 				w.mu.Unlock()
 			}
 			close(gate)
-			w.waitCount("d ", c.n, stressBound)
+			// (a short wait is harmless: Stop, invoked earlier, has to wait for the Dones itself)
+			w.waitCount("d ", c.n, 2*time.Second)
 		})
 		waitFor(p0, 3*stressBound)
 		s0 := w.spawn(100, func() { w.stop(0) })
@@ -1446,11 +1484,38 @@ func emit(r *hx.Run, sub uint64, res result) (failed bool) {
 		wb = 1 // a batch size <= 0: `writtenValuesCounter >= batchSize` holds after every object, as with batch size 1
 	}
 	r.Line(strings.TrimSpace(fmt.Sprintf("wconf b=%d %s", wb, strings.Join(wev, " "))), "conforms")
+	if wl, ok := res.plog[-1]; ok {
+		// the same with the store calls of the writer goroutine (nb: Batched(), cc: Cancel()) and, when every Stop
+		// call returned, its termination (x): every collector is committed or cancelled before the next one is
+		// created and before the goroutine ends
+		toks := append([]string(nil), wl...)
+		stopped, hung := false, false
+		for _, l := range res.ev {
+			switch parseEv(l).k {
+			case "tr":
+				stopped = true
+			case "bs", "bl", "panic":
+				hung = true
+			}
+		}
+		if stopped && !hung && !m.crashed {
+			toks = append(toks, "x")
+			r.Count("wconfs:with-exit")
+		}
+		r.Line(strings.TrimSpace(fmt.Sprintf("wconfs b=%d %s", wb, strings.Join(toks, " "))), "conforms")
+		for _, t := range toks {
+			if t == "nb" || t == "cc" {
+				r.Count("store-call:" + t)
+			}
+		}
+	}
 	// producer conformance: each producer's own events (its calls, yield points, flag operations, returns); the Lean
 	// driver drives the model's Enqueue (stepProd) with them
 	pids := make([]int, 0, len(res.plog))
 	for p := range res.plog {
-		pids = append(pids, p)
+		if p >= 0 {
+			pids = append(pids, p)
+		}
 	}
 	sort.Ints(pids)
 	for _, p := range pids {
